@@ -963,6 +963,10 @@ def option_outcome(ev, pred):
                 out = "none"
             elif any(str(v).endswith("Option::Some") for v in vs):
                 out = "some"
+            elif e.node.get("src") == "try" and any(str(v).endswith("ControlFlow::Continue") for v in vs):
+                out = "some"        # `e?` went on
+            elif e.node.get("src") == "try" and any(str(v).endswith("ControlFlow::Break") for v in vs):
+                out = "none"
             elif pat_is_catchall(e.node["arms"][e.extra]["pat"]):
                 # `_ =>` after a `Some(..)` arm is the None case; after a `None` arm the Some case
                 earlier = [v for a in e.node["arms"][:e.extra] for v in pat_variants(a["pat"])]
